@@ -33,7 +33,7 @@ KEYS = ["store_depth", "store_width", "store_algorithm", "store_metadata_namespa
 
 
 def examples(tier):
-    return 1600 if tier == "quick" else 15000
+    return 1600 if tier == "quick" else 100000
 
 
 @st.composite
